@@ -19,6 +19,10 @@ class BlockList:
         self.update_neighbours(block)
 
     def grade_blocks(self) -> None:
+        # gradings from a previous grade() (an earlier write) must not pile up
+        for block in self.blocks:
+            block.reset_grading()
+
         for block in self.blocks:
             block.grade()
 
